@@ -258,6 +258,9 @@ func windowsQuick() []core.Window {
 	return []core.Window{
 		core.Instant(45000), core.Instant(1000000),
 		core.Range(10000, 30000, 11), core.Range(0, 45000, 21),
+		// times that are not whole milliseconds: a start with a larger fraction than the end,
+		// a step of 33.333333333 s
+		core.Range(600000, 60000, 6).SubMs(900000, 100000, 0), core.Range(10000, 33333, 7).SubMs(0, 0, 333333),
 	}
 }
 
@@ -267,6 +270,8 @@ func windowsAll() []core.Window {
 		ws = append(ws, core.Range(10000, 30000, n), core.Range(0, 45000, n))
 	}
 	ws = append(ws, core.Range(10000, 7000, 35), core.Range(0, 7000, 11))
+	ws = append(ws, core.Range(600000, 60000, 6).SubMs(900000, 100000, 0), core.Range(10000, 33333, 7).SubMs(0, 0, 333333), core.Range(0, 30000, 10).SubMs(999999, 1, 0),
+		core.Instant(45000).SubMs(500000, 0, 0))
 	return ws
 }
 
